@@ -77,6 +77,8 @@ fn vsup_selftest_peek() {
     assert!(!r.has_lead);
     let r = peek(&format_args!("{e}: [E10] x {y}"));
     assert!(!r.has_lead);
+    let r = peek(&format_args!("{x:#x}: [E100] lower-case hex is not the documented position format {y}"));
+    assert!(!r.has_lead);
 }
 
 // ---- a minimal configuration object for harnesses ------------------------------------------
